@@ -7,7 +7,13 @@ import asyncio
 import logging
 import warnings
 
+import zlib
+
 from hypergraph import END, AsyncRunner, Graph, SyncRunner
+from hypergraph import ifelse as hg_ifelse
+from hypergraph import interrupt as hg_interrupt
+from hypergraph import node as hg_node
+from hypergraph import route as hg_route
 from hypergraph.nodes.function import FunctionNode
 from hypergraph.nodes.gate import IfElseNode, RouteNode
 from hypergraph.nodes.interrupt import InterruptNode
@@ -220,15 +226,28 @@ def _rename_inputs(node, nd):
     return node.with_inputs(ren) if ren else node
 
 
+def _via_decorator(nd, path, f):
+    """About half of the nodes are built through the public DECORATORS (@node, @route, @ifelse, @interrupt,
+    with rename_inputs=) instead of the node classes (+ with_inputs): both are documented ways to say the same thing."""
+    if nd.get("emit_renamed") or nd.get("materialize"):
+        return False
+    if nd["kind"] in ("func", "interrupt") and getattr(f, "__name__", None) != nd["name"]:
+        return False            # @node / @interrupt take the node's name from the function
+    return zlib.crc32(path.encode()) % 2 == 0
+
+
 def build_node(rt, nd, prefix):
     path = f"{prefix}/{nd['name']}" if prefix else nd["name"]
     kind = nd["kind"]
     emit = tuple(nd["outputs"][nd["ndata"]:]) or None
     wait_for = tuple(nd["wait_for"]) or None
+    ren = {o: c for c, o in nd["pmap"] if o != c} or None
     if kind == "func":
         f = _mk_callable(rt, path, nd, "call")
         data = nd["outputs"][: nd["ndata"]]
         out = None if not data else (data[0] if len(data) == 1 else tuple(data))
+        if _via_decorator(nd, path, f):
+            return hg_node(output_name=out, rename_inputs=ren, cache=nd["cache"], emit=emit, wait_for=wait_for)(f)
         if emit and nd.get("emit_renamed"):
             # the signal names are given to the node by a RENAME (with_outputs) after construction
             node = FunctionNode(f, name=nd["name"], output_name=out, cache=nd["cache"], emit=tuple(e + "_0" for e in emit), wait_for=wait_for)
@@ -240,18 +259,26 @@ def build_node(rt, nd, prefix):
         f = _mk_callable(rt, path, nd, "handler")
         data = nd["outputs"][: nd["ndata"]]
         out = data[0] if len(data) == 1 else tuple(data)
+        if _via_decorator(nd, path, f):
+            return hg_interrupt(output_name=out, rename_inputs=ren, cache=nd["cache"], emit=emit, wait_for=wait_for)(f)
         node = InterruptNode(f, name=nd["name"], output_name=out, emit=emit, wait_for=wait_for, cache=nd["cache"])
         return _rename_inputs(node, nd)
     if kind == "route":
         f = _mk_callable(rt, path, nd, "gate")
         tg = [END if t == "END" else t for t in nd["targets"]]
         fb = None if nd["fallback"] == IR.NONE else (END if nd["fallback"] == "END" else nd["fallback"])
+        if _via_decorator(nd, path, f):
+            return hg_route(targets=tg, fallback=fb, multi_target=nd["multi"], cache=nd["cache"], default_open=nd["default_open"],
+                            name=nd["name"], rename_inputs=ren, emit=emit, wait_for=wait_for)(f)
         node = RouteNode(f, targets=tg, fallback=fb, multi_target=nd["multi"], cache=nd["cache"],
                          default_open=nd["default_open"], name=nd["name"], emit=emit, wait_for=wait_for)
         return _rename_inputs(node, nd)
     if kind == "ifelse":
         f = _mk_callable(rt, path, nd, "gate")
         wt, wf = [END if t == "END" else t for t in nd["targets"]]
+        if _via_decorator(nd, path, f):
+            return hg_ifelse(when_true=wt, when_false=wf, cache=nd["cache"], default_open=nd["default_open"],
+                             name=nd["name"], rename_inputs=ren, emit=emit, wait_for=wait_for)(f)
         node = IfElseNode(f, when_true=wt, when_false=wf, cache=nd["cache"], default_open=nd["default_open"],
                           name=nd["name"], emit=emit, wait_for=wait_for)
         return _rename_inputs(node, nd)
